@@ -603,3 +603,29 @@ pub fn check_rename_prog(case: &str) -> Result<(), String> {
     if crate::o_ref::normalise(&o1) != crate::o_ref::normalise(&o2) { return Err(format!("`{}`: output {:?} with the rules as written, {:?} with their variables renamed; program: {}", parts[2], o1, o2, parts[0].replace('\u{2}', " "))); }
     Ok(())
 }
+
+// ---- C08: resolving / printing an answer whose query contains a function term -------------------------------------------
+// (program, query, expected solve_all output)
+const FN_ANSWERS: &[(&str, &str, &[&str])] = &[
+    ("num(2, two).\u{2}num(3, three).", "num(add(1, 1), $W)", &["$W = two"]),
+    ("num(2, two).\u{2}num(3, three).", "num(add(1, 2), $W)", &["$W = three"]),
+    ("num(2, two).\u{2}num(3, three).", "num(subtract(9, 1), $W)", &[]),
+    ("w($A).", "w(add(1, 2))", &[""]),
+    ("pair($A, $A).", "pair($X, multiply(2, 3))", &["$X = 6"]),
+    ("lst([$H | $T], $H).", "lst([add(1, 1), b], $X)", &["$X = 2"]),
+];
+pub fn enum_fn_answers(_seed: u64) -> Vec<String> { (0..FN_ANSWERS.len()).map(|k| format!("case={}", k)).collect() }
+pub fn check_fn_answers(case: &str) -> Result<(), String> {
+    let k: usize = case.trim_start_matches("case=").parse().map_err(|_| "bad case")?;
+    let (prog, q, want) = FN_ANSWERS[k];
+    let mut kb = KnowledgeBase::new();
+    for r in prog.split('\u{2}') { add_rules(&mut kb, vec![parse_rule(r).map_err(|e| format!("setup: {}", e))?]); }
+    let query = parse_query(q).map_err(|e| format!("setup: {}", e))?;
+    let sn = make_base_node(Rc::new(query), &kb);
+    let cap = Capture::start("c08fn");
+    let got = solve_all(sn);
+    let _ = cap.end();
+    let w: Vec<String> = want.iter().map(|s| s.to_string()).collect();
+    if got != w { return Err(format!("`{}` over `{}`: solve_all gives {:?}, expected {:?}", q, prog.replace('\u{2}', " "), got, w)); }
+    Ok(())
+}
